@@ -65,6 +65,9 @@ func labClasses(res *lab.Result) []string {
 	if c.Faultless() {
 		cls = append(cls, "faultless-script")
 	}
+	if c.FreeSched {
+		cls = append(cls, "free-running-plugins")
+	}
 	if c.GateSrcAcks {
 		cls = append(cls, "acks-taken-at-scheduled-instants")
 	}
